@@ -24,4 +24,34 @@ CHECKS = {
             "values are opaque; three keys, sizes 1..4, capacity 3",
         ],
     },
+    "C07": {
+        "pkg": "./headerfs",
+        "test": "TestVFXC07",
+        "overlay": ENGINE + ["internal/verifmemdb/memdb.go", "internal/verifhfs", "headerfs/zz_vfx_store_test.go"],
+        "shards": {"quick": 16, "thorough": 16},
+        "budget_s": {"quick": 150, "thorough": 3000},
+        "level": "model_checking",
+        "rule": "every sequence of store operations (append 0-3 block headers on branch a/b, append 0-2 filter headers, block rollback by 1/2/to genesis/past genesis, filter rollback, combined rollback, reopen) up to the depth, pruned on (list model, file offsets); in the fault runs every durable step (file write, truncate, sync, index commit) additionally offers every fault kind.",
+        "bounds": {"quick": "fault-free depth 5 (chains <= 6); <=1 fault at depth 4", "thorough": "fault-free depth 7; <=1 fault depth 5; <=2 faults (<=1 per operation) depth 4"},
+        "assumptions": ["in-memory walletdb (conformance: walletdbtest.TestInterface + exhaustive differential vs bbolt in bin/setup)", "real files on tmpfs through the headerfs verif seam", "block rollbacks never cut below the filter tip (caller contract)"],
+    },
+    "C08": {
+        "pkg": "./headerfs",
+        "test": "TestVFXC08",
+        "overlay": ENGINE + ["internal/verifmemdb/memdb.go", "internal/verifhfs", "headerfs/zz_vfx_store_test.go"],
+        "shards": {"quick": 16, "thorough": 16},
+        "budget_s": {"quick": 150, "thorough": 3000},
+        "level": "fault_enumeration",
+        "rule": "every history of store operations up to the depth, and in each every crash point: before each durable step (file write, truncate, index commit) and inside each file write with every torn-length class (1 byte, half entry, each entry boundary, 1.5 entries); after the crash the real constructors restart on the directory.",
+        "bounds": {"quick": "depth 4, 1 crash", "thorough": "depth 5 with 1 crash; depth 4 with a second crash during recovery"},
+        "assumptions": ["process-death crash model: completed steps persist in order, the step in flight may be partial; no power-loss reordering", "in-memory walletdb with atomic commit"],
+    },
+    "MEMDB": {
+        "pkg": "./internal/verifmemdb",
+        "test": "TestVFXMemdb.*",
+        "overlay": ["internal/verifmemdb"],
+        "shards": {"quick": 1, "thorough": 1},
+        "budget_s": {"quick": 600, "thorough": 3000},
+        "selftest": True,
+    },
 }
